@@ -19,3 +19,6 @@ test -s "$C/verus-target/externs.txt"
 sha256sum /repo/Cargo.toml /repo/Cargo.lock | sha256sum | cut -d' ' -f1 > "$C/verus-target/.lockhash"
 rm -rf "$C/depsrc"
 echo "setup: verus dependency rlibs ready under $C/verus-target"
+# warm the shared Kani dependency build (tools/kani_run.py PrivateTarget: checks copy it, never write to it afterwards)
+( cd "$V" && python3 tools/kani_run.py --warm ) > "$C/kani-warm.log" 2>&1 || echo "setup: kani warm-up did not complete (the first check builds the dependencies instead)"
+echo "setup: done"
